@@ -6,7 +6,7 @@ Lemmas/Wielandt.lean — Wielandt's bound for boolean patterns on `n ≤ 3` vert
 (a) `p⁶ = p¹²`, so every boolean power `p^k` equals one of `p⁰ … p¹¹` (and one of `p⁶ … p¹¹` when `k ≥ 12`), and
 (b) each of `p¹ … p¹¹` that is all-true forces `p^K` all-true, `K = (n-1)² + 1`.
 `check_spec` turns (a)+(b) into "all-true at some `k ≥ 1` ⇒ all-true at `K`"; the kernel evaluates `check` on all
-2 + 16 + 512 patterns with `n = 1, 2, 3` (`decide +kernel`, the 512 patterns in 8 chunks by first row, ≈ 9 s each).
+2 + 16 + 512 patterns with `n = 1, 2, 3` (`decide +kernel`, the 512 patterns in 8 chunks by first row, ≈ 5 s each).
 -/
 import MsmVerif.Lemmas.Linalg
 
